@@ -75,6 +75,61 @@ C03Prop == [][C03Step /\ C03Unelide]_vars
 (* ---- C04 ---------------------------------------------------------------*)
 WellFormedInv == \A r \in Full : WellFormed(reg[r])
 
+(* ---- C08 ---------------------------------------------------------------*)
+Honest(x) == \A y \in Elements(x) : (IsEnc(y) => (Dg(y[5]) = y[2] /\ y[6] = "ok")) /\ (IsComp(y) => (Dg(y[3]) = y[2] /\ y[4] = "ok"))
+C08Step ==
+  /\ (Op = "decrypt_subject") =>
+        LET e == Src  s == Subject(Src)  k == Arg(2) IN
+        /\ OkStep <=> (IsEnc(s) /\ s[3] = k /\ s[6] = "ok" /\ Dg(s[5]) = s[2])
+        /\ OkStep => /\ Dg(Res) = Dg(e)
+                     /\ IF IsNode(e) THEN Res = Node(s[5], e[3]) ELSE Res = s[5]
+  /\ (Op = "encrypt_subject") =>
+        /\ ErrStep <=> (IsEnc(Subject(Src)) \/ (~IsNode(Src) /\ IsElided(Src)))
+        /\ OkStep => (Dg(Res) = Dg(Src) /\ IsEnc(Subject(Res)) /\ Assertions(Res) = Assertions(Src))
+  /\ (Op = "decrypt" /\ OkStep) => Dg(Wrap(Res)) = Dg(Subject(Src))
+C08Prop == [][C08Step]_vars
+(* encrypt then decrypt with the same key is the identity; any other key fails *)
+C08Laws ==
+  \A r \in Full, k \in Keys :
+    LET e == reg[r]  n == <<FreshId, << >> >>  es == EncryptSubject(e, k, n) IN
+    /\ IsOk(es) => /\ DecryptSubject(Val(es), k) = Ok(e)
+                   /\ \A k2 \in Keys \ {k} : ~IsOk(DecryptSubject(Val(es), k2))
+                   /\ ~IsOk(EncryptSubject(Val(es), k, n))
+    /\ Decrypt(Encrypt(e, k, n), k) = Ok(e)
+
+(* ---- C13 ---------------------------------------------------------------*)
+C13Step ==
+  /\ (Op = "uncompress") =>
+        /\ OkStep <=> (IsComp(Src) /\ Src[4] = "ok" /\ Dg(Src[3]) = Src[2])
+        /\ OkStep => (Dg(Res) = Dg(Src) /\ Res = Src[3])
+  /\ (Op \in {"compress", "compress_subject", "uncompress_subject"} /\ OkStep) => Dg(Res) = Dg(Src)
+  /\ (Op = "uncompress_subject" /\ OkStep /\ IsNode(Src)) => Assertions(Res) = Assertions(Src)
+C13Prop == [][C13Step]_vars
+C13Laws ==
+  \A r \in Full :
+    LET e == reg[r]  c == CompressOne(e)  cs == CompressSubject(e) IN
+    /\ IsOk(c)  => /\ Dg(Val(c)) = Dg(e)
+                   /\ CompressOne(Val(c)) = c
+                   /\ (~IsComp(e)) => Uncompress(Val(c)) = Ok(e)
+    /\ IsOk(cs) => /\ Dg(Val(cs)) = Dg(e)
+                   /\ CompressSubject(Val(cs)) = cs
+                   /\ (~IsComp(Subject(e))) => UncompressSubject(Val(cs)) = Ok(e)
+
+(* ---- C14 ---------------------------------------------------------------*)
+(* the structural image (what structural_digest hashes) carries exactly the pattern *)
+C14Laws ==
+  \A r1 \in Full, r2 \in Full :
+    LET x == reg[r1]  y == reg[r2] IN
+    /\ (StructImage(x) = StructImage(y)) <=> (Pattern(x) = Pattern(y))
+    /\ Identical(x, y) => Equivalent(x, y)
+    /\ Identical(x, x)
+    /\ Identical(x, y) <=> Identical(y, x)
+C14Step ==
+  /\ (Op = "encode_decode" /\ OkStep) => Identical(Res, Src)
+  /\ (Op \in {"elide", "elide_set", "compress"} /\ OkStep) =>
+        (Equivalent(Res, Src) /\ (Res # Src => ~Identical(Res, Src)))
+C14Prop == [][C14Step]_vars
+
 (* ---- C07 ---------------------------------------------------------------*)
 C07Laws ==
   \A r1 \in Full, r2 \in Full, r3 \in Full :
